@@ -17,6 +17,7 @@ type c13World struct {
 	strict   bool
 	srv      int    // server state during the operations: 0 down, 1 bad signature, 2 good
 	accepted []bool // verdicts of the handshakes that name the distribution point
+	s1       *big.Int
 	c      *CRLRevocationChecker
 	fetch  config.CRLFetchMode
 	state  int
@@ -40,6 +41,7 @@ func c13Setup() *c13World {
 	c := w.c
 	s1, probe := sym("s1"), sym("probe")
 	w.probe = probe
+	w.s1 = s1
 	good := crlrepository.VerifNewCRL("GOOD", "CN=I1", s1)
 	crlrepository.VerifSetServer(urlA, true, good)
 	cert := crlrepository.VerifCert("CN=I1", probe, urlA)
@@ -81,6 +83,19 @@ func c13Setup() *c13World {
 		crlrepository.VerifSetServer(urlA, true, crlrepository.VerifNewCRL("NEXT", "CN=I1", s1))
 	}
 	return w
+}
+
+// listedVerdicts: with active fetching and a good server every list that can be in force for the distribution
+// point lists s1 (GOOD, ROLLED, NEXT) - so a handshake presenting serial s1 and naming it is rejected in
+// every sequential order of the operations, hence under every interleaving
+func (w *c13World) listedVerdicts(involvesCleanup bool) {
+	if w.fetch != config.CRLFetchModeActively || w.srv != 2 || involvesCleanup {
+		return
+	}
+	isListed := w.probe.Cmp(w.s1) == 0
+	for _, acc := range w.accepted {
+		verifrt.Assert(verifrt.Implies(isListed, !acc), "a handshake whose certificate is listed by the distribution point's (obtainable) list is rejected under every interleaving")
+	}
 }
 
 func (w *c13World) run(op int) {
@@ -157,6 +172,7 @@ func VerifC13_Interleave() {
 			verifrt.Assert(!acc, "strict: a handshake is never accepted while no CRL of its distribution point has ever been in force, under any interleaving")
 		}
 	}
+	w.listedVerdicts(a == 5 || b == 5)
 	if a != 5 && b != 5 {
 		ok, _ := w.c.crlRepository.VerifConsistent()
 		verifrt.Assert(ok, "the repository is consistent after the interleaving (every entry has loader and store; loaded entries hold a list)")
@@ -187,6 +203,7 @@ func VerifC13_SpawnRace() {
 			verifrt.Assert(!acc, "strict: a handshake is never accepted while no CRL of its distribution point has ever been in force, whatever its own background load is doing")
 		}
 	}
+	w.listedVerdicts(a == 5)
 	if a != 5 {
 		ok, _ := w.c.crlRepository.VerifConsistent()
 		verifrt.Assert(ok, "the repository is consistent afterwards")
